@@ -211,6 +211,95 @@ def pyUn (op : String) (c : Const) : X (Option Const) :=
 
 def builtinFuncs : List String := ["abs", "len", "min", "max", "sum", "any", "all", "chr", "ord"]
 
+/-- an argument of a builtin call after `arg_tr`: a constant, or a tuple / list literal of constants -/
+inductive PyArg where
+  | scalar (c : Const)
+  | lst (cs : List Const)
+
+def constsOf : List SExp → Option (List Const)
+  | [] => some []
+  | .const c :: es => (constsOf es).map fun r => c :: r
+  | _ :: _ => none
+
+/-- `arg_tr` + the test `all(isinstance(arg, ast.Constant) …)`: `none` = some argument is not constant -/
+def pyArgs : List SExp → Option (List PyArg)
+  | [] => some []
+  | .const c :: es => (pyArgs es).map fun r => .scalar c :: r
+  | .tuple xs :: es =>
+    match constsOf xs, pyArgs es with
+    | some cs, some r => some (.lst cs :: r)
+    | _, _ => none
+  | .list xs :: es =>
+    match constsOf xs, pyArgs es with
+    | some cs, some r => some (.lst cs :: r)
+    | _, _ => none
+  | _ :: _ => none
+
+def intsOf : List Const → Option (List Int)
+  | [] => some []
+  | c :: cs => match c.asInt?, intsOf cs with
+    | some a, some r => some (a :: r)
+    | _, _ => none
+
+/-- python `min` / `max` over `int` / `bool` values: the first extremal element, with its own type -/
+def pyExtreme (isMax : Bool) : List Const → Option Const
+  | [] => none
+  | c :: cs =>
+    match pyExtreme isMax cs, c.asInt? with
+    | none, _ => if cs.isEmpty then some c else none
+    | some r, some a =>
+      match r.asInt? with
+      | some b => if isMax then (if b > a then some r else some c) else (if b < a then some r else some c)
+      | none => none
+    | some _, none => none
+
+/-- `func(*args)` of `ConstantFolder.visit_Call` on constant arguments -/
+def pyCall (fn : String) (args : List PyArg) : X Const :=
+  let out : X Const := throw (.outside s!"constant folding of {fn} on these arguments")
+  match fn, args with
+  | "abs", [.scalar c] => match c.asInt? with
+    | some a => pure (.int (if a < 0 then -a else a))
+    | none => out
+  | "len", [.lst cs] => pure (.int cs.length)
+  | "len", [.scalar (.bool _)] => throw (.exc "TypeError" "has no len()")
+  | "len", [.scalar (.int _)] => throw (.exc "TypeError" "has no len()")
+  | "sum", [.lst cs] => match intsOf cs with
+    | some l => pure (.int (l.foldl (· + ·) 0))
+    | none => out
+  | "any", [.lst cs] => match intsOf cs with
+    | some l => pure (.bool (l.any (· != 0)))
+    | none => out
+  | "all", [.lst cs] => match intsOf cs with
+    | some l => pure (.bool (l.all (· != 0)))
+    | none => out
+  | "min", [.lst cs] => match intsOf cs with
+    | some _ => (match pyExtreme false cs with
+      | some c => pure c
+      | none => if cs.isEmpty then throw (.exc "ValueError" "empty") else out)
+    | none => out
+  | "max", [.lst cs] => match intsOf cs with
+    | some _ => (match pyExtreme true cs with
+      | some c => pure c
+      | none => if cs.isEmpty then throw (.exc "ValueError" "empty") else out)
+    | none => out
+  | "chr", [.scalar c] => match c.asInt? with
+    | some a => if 0 ≤ a ∧ a < 55296 then pure (.str (String.singleton (Char.ofNat a.toNat))) else out
+    | none => out
+  | "ord", [.scalar (.str t)] => match t.toList with
+    | [ch] => pure (.int ch.toNat)
+    | _ => throw (.exc "TypeError" "ord() expected a character")
+  | fn, args =>
+    -- no argument at all: every builtin of the table raises
+    if args.isEmpty then throw (.exc "TypeError" "argument") else
+    -- min / max of two or more scalars
+    if (fn == "min" || fn == "max") && args.length ≥ 2 then
+      match args.mapM (fun a => match a with | .scalar c => some c | .lst _ => none) with
+      | some cs => (match intsOf cs, pyExtreme (fn == "max") cs with
+        | some _, some c => pure c
+        | _, _ => out)
+      | none => out
+    else out
+
 mutual
 /-- `ConstantFolder.visit` on an expression (children first: `generic_visit`) -/
 def foldE : SExp → X SExp
@@ -219,8 +308,19 @@ def foldE : SExp → X SExp
   | .sub v i => do
     let v' ← foldE v
     let i' ← foldE i
+    -- `visit_Subscript`: a constant index into a list literal of constants is the element
     match v', i' with
-    | .list _, .const _ => throw (.outside "constant index into a list literal")
+    | .list es, .const c =>
+      match constsOf es with
+      | some _ =>
+        match c with
+        | .str _ | .other _ => throw (.exc "TypeError" "list indices must be integers")
+        | _ =>
+          let k : Int := c.asInt?.getD 0
+          let n : Int := es.length
+          let k' := if k < 0 then k + n else k
+          if 0 ≤ k' ∧ k' < n then pure (es.getD k'.toNat (.const c)) else pure (.sub v' i')
+      | none => pure (.sub v' i')
     | _, _ => pure (.sub v' i')
   | .boolop a vs => do pure (.boolop a (← foldEs vs))
   | .unop op e => do
@@ -260,9 +360,14 @@ def foldE : SExp → X SExp
   | .list es => do pure (.list (← foldEs es))
   | .call fn args => do
     let args' ← foldEs args
-    if builtinFuncs.contains fn then throw (.outside s!"builtin call {fn}")
-    pure (.call fn args')
-  | .other w => throw (.outside s!"expression {w}")
+    if builtinFuncs.contains fn then
+      match pyArgs args' with
+      | some pa => pure (.const (← pyCall fn pa))
+      | none => pure (.call fn args')
+    else pure (.call fn args')
+  | .other w =>
+    -- a subscript whose slice `visit_Subscript` replaced by a python value: nothing to fold in it
+    if "subscript-slice:".toList.isPrefixOf w.toList then pure (.other w) else throw (.outside s!"expression {w}")
 def foldEs : List SExp → X (List SExp)
   | [] => pure []
   | e :: es => do
@@ -379,7 +484,7 @@ def substE (θ : Subst) (e : SExp) : SExp := θ.foldl (fun e p => subst1 p.1 p.2
 
 /-- what `Environment.types` / `.constants` hold -/
 inductive EVal where
-  | ann (tupleArity : Option Nat)   -- an annotation; `some n` = `Tuple[…]` with `n` elements
+  | ann (e : SExp)                  -- an annotation (after `ReplaceTypeAnn`), as syntax
   | unknown                         -- the string "Unknown"
   | raw (c : Const)                 -- a python value (`set_constant` of a `Constant`)
   | node (e : SExp)                 -- a syntax node
@@ -432,27 +537,249 @@ def powChain (l : SExp) : Nat → SExp
   | 0 => l
   | k + 1 => .bin "Mult" (powChain l k) l
 
+/-- the syntax node an entry of `Environment.types` / `.constants` is, if it is one -/
+def EVal.asNode? : EVal → Option SExp
+  | .ann e => some e
+  | .node e => some e
+  | _ => none
+
+def Const.pyType : Const → String
+  | .bool _ => "bool"
+  | .int _ => "int"
+  | .str _ => "str"
+  | .other w => w
+
+def attrErr (what : String) : Err := .exc "AttributeError" s!"object has no attribute '{what}'"
+
+/-- `L[i]` / `L[i][j]` of `create_if_exp` -/
+def access1 (L : String) (i : Nat) : SExp := .sub (.name L) (.const (.int i))
+def access2 (L : String) (i j : Nat) : SExp := .sub (.sub (.name L) (.const (.int i))) (.const (.int j))
+
+/-- `create_if_exp(L, i, max_i)` from index `k` with `r` more elements after it:
+`L[k] if i == k else … else L[k + r]` -/
+def ifChain1 (L i : String) : Nat → Nat → SExp
+  | k, 0 => access1 L k
+  | k, r + 1 => .ite (.cmp "Eq" (.name i) (.const (.int k))) (access1 L k) (ifChain1 L i (k + 1) r)
+
+/-- `create_if_exp(L, i, max_i, j, max_j)` over the positions in row-major order -/
+def ifChain2 (L i j : String) : List (Nat × Nat) → SExp
+  | [] => access2 L 0 0
+  | [p] => access2 L p.1 p.2
+  | p :: q :: ps =>
+    .ite (.boolop true [.cmp "Eq" (.name i) (.const (.int p.1)), .cmp "Eq" (.name j) (.const (.int p.2))])
+      (access2 L p.1 p.2) (ifChain2 L i j (q :: ps))
+
+/-- the positions `(0,0) … (n-1, m-1)`, row by row -/
+def positions (n m : Nat) : List (Nat × Nat) :=
+  (List.range n).flatMap fun a => (List.range m).map fun b => (a, b)
+
+/-- `.elts` of a syntax node -/
+def eltsOf : SExp → X (List SExp)
+  | .tuple es => pure es
+  | .list es => pure es
+  | _ => throw (attrErr "elts")
+
+/-- `.slice` of a syntax node -/
+def sliceOf : SExp → X SExp
+  | .sub _ sl => pure sl
+  | _ => throw (attrErr "slice")
+
+/-- `gtype.slice` for what `Environment.get_type` returned (`None`, the string "Unknown", a python value or a node) -/
+def typeSlice : Option EVal → X SExp
+  | some v => match v.asNode? with
+    | some e => sliceOf e
+    | none => throw (attrErr "slice")
+  | none => throw (attrErr "slice")
+
+/-- python list indexing by a constant -/
+def pyIndex (es : List SExp) (c : Const) : X SExp :=
+  match c with
+  | .str _ | .other _ => throw (.exc "TypeError" "indices must be integers")
+  | _ =>
+    let k : Int := c.asInt?.getD 0
+    let n : Int := es.length
+    let k' := if k < 0 then k + n else k
+    if 0 ≤ k' ∧ k' < n then pure (es.getD k'.toNat (.const c)) else throw (.exc "IndexError" "index out of range")
+
+/-- `__unroll_arg` -/
+def unrollArg (st : RSt) (arg : SExp) : X (List SExp) :=
+  match arg with
+  | .tuple es => pure es
+  | .sub (.name L) sl =>
+    match (lookup st.types L).bind EVal.asNode?, sl with
+    | some (.sub _ (.tuple outer)), .const c => do
+      -- the elements of the row that is indexed (a matrix need not be square)
+      let row ← pyIndex outer c
+      let row' := match row with
+        | .sub _ s => s
+        | r => r
+      match row' with
+      | .tuple r => pure ((List.range r.length).map fun (i : Nat) => .sub (.sub (.name L) (.const c)) (.const (.int (i : Int))))
+      | _ => pure [arg]
+    | _, _ => pure [arg]
+  | .name n =>
+    match (lookup st.types n).bind EVal.asNode? with
+    | some (.sub hd sl) =>
+      match hd with
+      | .name h =>
+        if h == "Tuple" then do
+          let es ← eltsOf sl
+          pure ((List.range es.length).map fun (i : Nat) => .sub (.name n) (.const (.int (i : Int))))
+        else pure [arg]
+      | _ => throw (attrErr "id")
+    | some (.tuple _) =>
+      match lookup st.consts n with
+      | some v => match v.asNode? with
+        | some e => eltsOf e
+        | none => throw (attrErr "elts")
+      | none => pure [arg]
+    | _ => pure [arg]
+  | _ => pure [arg]
+
+/-- `a0 + (a1 + (…))` of `__call_sum` -/
+def sumChain : List SExp → X SExp
+  | [] => throw (.exc "IndexError" "list index out of range")
+  | [x] => pure x
+  | x :: y :: ys => do pure (.bin "Add" x (← sumChain (y :: ys)))
+
+def cmpAll (op : String) (x : SExp) : List SExp → List SExp
+  | [] => []
+  | y :: ys => .cmp op x y :: cmpAll op x ys
+
+/-- `iterif` of `__call_minmax` -/
+def minmaxChain (op : String) : List SExp → X SExp
+  | [] => throw (.exc "IndexError" "list index out of range")
+  | [x] => pure x
+  | x :: y :: ys => do pure (.ite (.boolop true (cmpAll op x (y :: ys))) x (← minmaxChain op (y :: ys)))
+
+/-- `visit_Call` once the arguments are visited -/
+def visitCall (st : RSt) (fn : String) (args : List SExp) : X SExp :=
+  match fn with
+  | "print" => throw (.outside "print")
+  | "range" => throw (.outside "range outside the iterator of a for")
+  | "len" =>
+    match args with
+    | [a] => do pure (.const (.int (← unrollArg st a).length))
+    | _ => throw (.exc "Exception" "Len only receives one argument")
+  | "sum" =>
+    match args with
+    | [a] => do sumChain (← unrollArg st a)
+    | _ => throw (.exc "Exception" "sum() takes at most 1 argument")
+  | "ord" | "chr" =>
+    match args with
+    | [a] => pure a
+    | _ => throw (.exc "Exception" "takes exactly 1 argument")
+  | "any" | "all" =>
+    match args with
+    | [a] => do pure (.boolop (fn == "all") (← unrollArg st a))
+    | _ => throw (.exc "Exception" "any() takes exactly 1 argument")
+  | "min" | "max" => do
+    let xs ← match args with
+      | [a] => unrollArg st a
+      | _ => pure args
+    minmaxChain (if fn == "max" then "Gt" else "LtE") xs
+  | _ => pure (.call fn args)
+
+/-- `visit_Subscript`, first branch: `L[a]` with `a` a constant of the environment - the slice becomes that constant
+(a python value is no syntax: the node is then `other "subscript-slice:<type>"`) -/
+def constSlice (st : RSt) (v i : SExp) : Option (X SExp) :=
+  match i with
+  | .name j =>
+    match lookup st.consts j with
+    | some (.raw c) => some (pure (.other ("subscript-slice:" ++ c.pyType)))
+    | some cv =>
+      match cv.asNode? with
+      | some e => some (pure (.sub v e))
+      | none => some (throw (.outside "constant of the environment"))
+    | none => none
+  | _ => none
+
+/-- the number of elements `visit_Subscript` reads off the type of `L` for `L[i]` -/
+def lenOfType (st : RSt) (L : String) : X Nat :=
+  let gtype := lookup st.types L
+  match gtype.bind EVal.asNode? with
+  | some (.tuple es) => pure es.length
+  | _ => do pure (← eltsOf (← typeSlice gtype)).length
+
+/-- `visit_Subscript`, second branch: `L[i]` -/
+def visitSub1 (st : RSt) (L iname : String) : X SExp := do
+  let n ← lenOfType st L
+  if n == 0 then throw (.exc "RecursionError" "maximum recursion depth exceeded")
+  pure (ifChain1 L iname 0 (n - 1))
+
+/-- the numbers of rows and of columns `visit_Subscript` reads off the type of `L` for `L[i][j]` (the columns are
+those of row 0) -/
+def dimsOfType (st : RSt) (L : String) : X (Nat × Nat) :=
+  let gtype := lookup st.types L
+  match gtype.bind EVal.asNode? with
+  | some (.tuple (.tuple r :: es)) => pure (es.length + 1, r.length)
+  | some (.tuple []) => throw (.exc "IndexError" "list index out of range")
+  | _ => do
+    let outer ← eltsOf (← typeSlice gtype)
+    let inner ← match outer with
+      | [] => throw (.exc "IndexError" "list index out of range")
+      | x :: _ => pure x
+    let inner' := match inner with
+      | .sub _ sl => sl
+      | x => x
+    pure (outer.length, (← eltsOf inner').length)
+
+/-- `visit_Subscript`, third branch: `L[i][j]` -/
+def visitSub2 (st : RSt) (L iname jname : String) : X SExp := do
+  let (n, m) ← dimsOfType st L
+  if n == 0 || m == 0 then throw (.exc "RecursionError" "maximum recursion depth exceeded")
+  pure (ifChain2 L iname jname (positions n m))
+
+/-- the if-chain over the elements of a tuple: `x0` unless `i == 1` (`x1`) … -/
+def tableChain (i : SExp) (x : SExp) (xs : List SExp) : SExp :=
+  (xs.zipIdx).foldl (fun acc (p : SExp × Nat) => .ite (.cmp "Eq" i (.const (.int ((p.2 : Int) + 1)))) p.1 acc) x
+
+/-- `visit_Subscript`, fourth branch: a variable index into a constant tuple / a tuple literal -/
+def visitSubTable (st : RSt) (v i : SExp) : X SExp :=
+  let varSlice := match i with
+    | .name _ => true
+    | .sub _ _ => true
+    | _ => false
+  if !varSlice then pure (.sub v i) else
+  match v with
+  | .name "Tuple" => pure (.sub v i)
+  | _ =>
+    let tup : Option SExp := match v with
+      | .name L => (lookup st.consts L).bind EVal.asNode?
+      | e => some e
+    match tup with
+    | some (.tuple []) => throw (.exc "IndexError" "list index out of range")
+    | some (.tuple (x :: xs)) => pure (tableChain i x xs)
+    | some (.const _) => throw (.exc "TypeError" "expected AST")
+    | some _ => throw (.exc "Exception" "Not a tuple in ast2ast visit subscript")
+    | none => throw (.exc "TypeError" "expected AST")
+
+/-- `visit_Subscript` -/
+def visitSub (st : RSt) (v i : SExp) : X SExp :=
+  match constSlice st v i with
+  | some r => r
+  | none =>
+    match v, i with
+    | .name L, .name iname => visitSub1 st L iname
+    | .sub (.name L) (.name iname), .name jname => visitSub2 st L iname jname
+    | _, _ => visitSubTable st v i
+
 mutual
-/-- `ASTRewriter.visit` on an expression, for the forms whose visitor is modelled -/
-def visitE : SExp → X SExp
+/-- `ASTRewriter.visit` on an expression; `st` = the `Environment` at this point (expression visitors only read it) -/
+def visitE (st : RSt) : SExp → X SExp
   | .name n => if isDunder n then throw (.exc "Exception" "invalid name starting with __") else pure (.name n)
   | .const c => pure (.const c)
-  | .sub v i =>
-    -- `visit_Subscript`: only the fall-through `return node` (children are not visited)
-    match i with
-    | .name _ => throw (.outside "subscript by a name")
-    | .sub _ _ => throw (.outside "subscript by a subscript")
-    | _ => pure (.sub v i)
-  | .boolop a vs => do pure (.boolop a (← visitEs vs))
-  | .unop op e => do pure (.unop op (← visitE e))
+  | .sub v i => visitSub st v i        -- the children are not visited
+  | .boolop a vs => do pure (.boolop a (← visitEs st vs))
+  | .unop op e => do pure (.unop op (← visitE st e))
   | .ite c t e => do
-    let c' ← visitE c
-    let t' ← visitE t
-    let e' ← visitE e
+    let c' ← visitE st c
+    let t' ← visitE st t
+    let e' ← visitE st e
     pure (.ite c' t' e')
   | .cmp op l r => do
-    let l' ← visitE l
-    let r' ← visitE r
+    let l' ← visitE st l
+    let r' ← visitE st r
     pure (.cmp op l' r')
   | .bin op l r => do
     -- `visit_BinOp`: `**` by a literal is expanded before (instead of) visiting the operands
@@ -466,24 +793,35 @@ def visitE : SExp → X SExp
         if k > bigExp then throw (.outside "huge exponent") else pure (powChain l (k.toNat - 1))
       else if k == 0 then pure (.const (.int 1))
       else do
-        let l' ← visitE l
-        let r' ← visitE r
+        let l' ← visitE st l
+        let r' ← visitE st r
         pure (.bin op l' r')
     | none => do
-      let l' ← visitE l
-      let r' ← visitE r
+      let l' ← visitE st l
+      let r' ← visitE st r
       pure (.bin op l' r')
-  | .tuple es => do pure (.tuple (← visitEs es))
-  | .list es => do pure (.tuple (← visitEs es))     -- `visit_List`
-  | .call fn _ => throw (.outside s!"call of {fn}")
+  | .tuple es => do pure (.tuple (← visitEs st es))
+  | .list es => do pure (.tuple (← visitEs st es))     -- `visit_List`
+  | .call fn args => do
+    let args' ← visitEs st args
+    visitCall st fn args'
   | .other w => throw (.outside s!"expression {w}")
-def visitEs : List SExp → X (List SExp)
+def visitEs (st : RSt) : List SExp → X (List SExp)
   | [] => pure []
   | e :: es => do
-    let e' ← visitE e
-    let es' ← visitEs es
+    let e' ← visitE st e
+    let es' ← visitEs st es
     pure (e' :: es')
 end
+
+/-- an expression visited in the current state -/
+def visitM (e : SExp) : RM SExp := fun s => match visitE s e with
+  | .ok a => .ok (a, s)
+  | .error err => .error err
+
+def visitMs (es : List SExp) : RM (List SExp) := fun s => match visitEs s es with
+  | .ok a => .ok (a, s)
+  | .error err => .error err
 
 def liftX {α} (x : X α) : RM α := fun s => match x with
   | .ok a => .ok (a, s)
@@ -497,7 +835,7 @@ def envUpdate (target : String) (value : SExp) : RM Unit :=
   | .const c => setConstant target (.raw c)
   | .name m => do if (← get).known m then copyType m target else setType target .unknown
   | .tuple _ | .list _ => do
-    let v' ← liftX (visitE value)
+    let v' ← visitM value
     setConstantNode target v'
   | _ => setType target .unknown
 
@@ -515,11 +853,11 @@ def visitAssign (targets : List SExp) (value : SExp) : RM (List SStmt) := do
   envUpdate target value
   if (namesE value).contains target && wasKnown && !isConstE value then
     note "self-assign"
-    let v' ← liftX (visitE value)
+    let v' ← visitM value
     let tmp := SExp.name ("__" ++ target)
     pure [.assign [tmp] v', .assign targets tmp]
   else
-    let v' ← liftX (visitE value)
+    let v' ← visitM value
     pure [.assign targets v']
 
 /-- `visit_AugAssign` -/
@@ -528,7 +866,7 @@ def visitAug (target : SExp) (op : String) (value : SExp) : RM (List SStmt) := d
     | .name t => pure t
     | _ => throw (.exc "AttributeError" "object has no attribute 'id'")
   note "augassign"
-  let v' ← liftX (visitE (.bin op target value))
+  let v' ← visitM (.bin op target value)
   let tmp := SExp.name ("__" ++ t)
   pure [.assign [tmp] v', .assign [target] tmp]
 
@@ -624,7 +962,7 @@ def forIter (it : SExp) : RM (List SExp) := do
   match it with
   | .call "range" args =>
     note "for-range"
-    let a1 ← liftX (visitEs args)
+    let a1 ← visitMs args
     let a2 ← liftX (foldEs a1)
     if !allConst a2 then throw (.exc "Exception" "Range call on not constant arguments is not handled")
     let ints ← liftX (constInts a2)
@@ -637,26 +975,23 @@ def forIter (it : SExp) : RM (List SExp) := do
     | _ => throw (.exc "TypeError" "range expected")
   | .tuple es =>
     note "for-tuple"
-    let es' ← liftX (visitEs es)
+    let es' ← visitMs es
     liftX (iterVals es')
   | .list es =>
     note "for-list"
-    let es' ← liftX (visitEs es)
+    let es' ← visitMs es
     liftX (iterVals es')
   | .name n =>
     note "for-name"
-    let _ ← liftX (visitE (.name n))
-    let st ← get
-    match lookup st.types n with
-    | some (.ann (some k)) =>
-      pure ((List.range k).map fun (i : Nat) => .sub (.name n) (.const (.int (i : Int))))
-    | some (.node (.tuple _)) =>
-      match lookup st.consts n with
-      | some (.node (.tuple es)) => liftX (iterVals es)
-      | some _ => throw (.exc "AttributeError" "object has no attribute 'elts'")
-      | none => throw (.outside "loop over a name that is not a tuple")
-    | _ => throw (.outside "loop over a name that is not a tuple")
-  | _ => throw (.outside "loop iterator form")
+    let it' ← visitM (.name n)
+    let elems ← liftX (unrollArg (← get) it')
+    liftX (iterVals elems)
+  | it =>
+    -- a row `m[c]`, an if-chain, a call …: visited, then unrolled as far as `__unroll_arg` knows it
+    note "for-other"
+    let it' ← visitM it
+    let elems ← liftX (unrollArg (← get) it')
+    liftX (iterVals elems)
 
 /-! ## statements -/
 
@@ -698,14 +1033,14 @@ def rwS (θ : Subst) : SStmt → RM (List SStmt)
   | .aug t op v => visitAug (substE θ t) op (substE θ v)
   | .ann t a v => visitAnn (substE θ t) a (v.map (substE θ))
   | .ret none => pure [.ret none]
-  | .ret (some v) => do pure [.ret (some (← liftX (visitE (substE θ v))))]
-  | .expr v => do pure [.expr (← liftX (visitE (substE θ v)))]
+  | .ret (some v) => do pure [.ret (some (← visitM (substE θ v)))]
+  | .expr v => do pure [.expr (← visitM (substE θ v))]
   | .ifs c b e => do
     let b' ← rwSs θ b
     let e' ← rwSs θ e
     noteIf e b' e'
     let g := "_iftarg" ++ (← nextUniq)
-    let c' ← liftX (visitE (substE θ c))
+    let c' ← visitM (substE θ c)
     let st ← get
     let gb ← liftX (guardBody st.known g b')
     let ge ← liftX (guardElse st.known g e')
@@ -726,18 +1061,91 @@ def rwSs (θ : Subst) : List SStmt → RM (List SStmt)
     pure (s' ++ ss')
 end
 
-/-- arguments: name and, for a `Tuple[…]` / `Qlist` / `Qmatrix` annotation, its number of elements -/
-abbrev Args := List (String × Option Nat)
+/-! ## `ReplaceTypeAnn` on the annotations of the arguments (what `Environment.get_type` shows the rewriter) -/
 
+def digitsVal (l : List Char) : Nat := l.foldl (fun a c => a * 10 + (c.toNat - 48)) 0
+
+mutual
+/-- `_replace_types_annotations` -/
+def replaceAnn : SExp → X SExp
+  | .sub (.name hd) sl =>
+    if hd == "Tuple" then
+      match sl with
+      | .tuple es => do pure (.sub (.name "Tuple") (.tuple (← replaceAnns es)))
+      | .list es => do pure (.sub (.name "Tuple") (.tuple (← replaceAnns es)))
+      | _ => pure (.sub (.name hd) sl)
+    else if hd == "Qlist" then
+      match sl with
+      | .tuple (t :: .const (.int n) :: _) => pure (.sub (.name "Tuple") (.tuple (List.replicate n.toNat t)))
+      | .tuple _ => throw (.outside "Qlist annotation form")
+      | _ => pure (.sub (.name hd) sl)
+    else if hd == "Qmatrix" then
+      match sl with
+      | .tuple (t :: .const (.int n) :: .const (.int m) :: _) =>
+        pure (.sub (.name "Tuple") (.tuple (List.replicate n.toNat (.tuple (List.replicate m.toNat t)))))
+      | .tuple _ => throw (.outside "Qmatrix annotation form")
+      | _ => pure (.sub (.name hd) sl)
+    else pure (.sub (.name hd) sl)
+  | .name n =>
+    if n.toList.take 4 == "Qint".toList then
+      let d := n.toList.drop 4
+      if !d.isEmpty && d.all Char.isDigit then pure (.sub (.name "Qint") (.const (.int (digitsVal d))))
+      else throw (.exc "ValueError" "invalid literal for int()")
+    else if n.toList.take 6 == "Qfixed".toList then throw (.outside "Qfixed<n> annotation")
+    else pure (.name n)
+  | e => pure e
+def replaceAnns : List SExp → X (List SExp)
+  | [] => pure []
+  | e :: es => do
+    let e' ← replaceAnn e
+    let es' ← replaceAnns es
+    pure (e' :: es')
+end
+
+/-- arguments: name and annotation -/
+abbrev Args := List (String × SExp)
+
+def replaceArgs : Args → X Args
+  | [] => pure []
+  | (n, a) :: r => do
+    let a' ← replaceAnn a
+    let r' ← replaceArgs r
+    pure ((n, a') :: r')
+
+/-- the state `visit_FunctionDef` leaves: the (replaced) annotation of each argument as its type -/
 def initSt (args : Args) : RSt :=
   { types := args.foldl (fun l (n, a) => insert l n (.ann a)) [] }
 
-/-- `ast2ast` on the body of a function: the rewritten body and the rules exercised -/
-def ast2ast (args : Args) (body : List SStmt) : X (List SStmt × List String) := do
+/-- `generic_visit` of the `FunctionDef` also visits the annotations (arguments before the body, `returns` after it):
+only an exception can be seen of it (`t: Tuple[bool]` is a `Subscript` by a `Name`: `visit_Subscript` asks the
+environment for the type of `Tuple`) -/
+def visitAnns (st : RSt) : List SExp → X Unit
+  | [] => pure ()
+  | a :: r => do
+    let _ ← visitE st a
+    visitAnns st r
+
+def visitRet (st : RSt) : Option SExp → X Unit
+  | none => pure ()
+  | some a => do
+    let _ ← visitE st a
+    pure ()
+
+def replaceRet : Option SExp → X (Option SExp)
+  | none => pure none
+  | some a => do pure (some (← replaceAnn a))
+
+/-- `ast2ast` on a function (argument annotations, return annotation, body): the rewritten body and the rules
+exercised -/
+def ast2ast (args : Args) (ret : Option SExp) (body : List SStmt) : X (List SStmt × List String) := do
   rejectReserved (args.map (·.1)) body
   let b1 ← foldSs body
+  let args' ← replaceArgs args
+  let ret' ← replaceRet ret
   let b2 ← mtSs b1
-  let (b3, st) ← (rwSs [] b2).run (initSt args)
+  visitAnns (initSt args') (args'.map (·.2))
+  let (b3, st) ← (rwSs [] b2).run (initSt args')
+  visitRet st ret'
   let b4 ← foldSs b3
   let log := st.log ++ (if b1 != body then ["fold-pre"] else []) ++ (if b2 != b1 then ["multitarget"] else [])
     ++ (if b4 != b3 then ["fold-post"] else [])
